@@ -348,6 +348,26 @@ def check(ctx):
                         ctx.oblige("R-C07.7", f"{fname}: {X}.{F} under a test of {X}.{others}", also, sample={"rule": "R-C07.7", "visitor": fname, "field": F, "tested field": others, "emitted on the other outcome too": also})
                         if not also:
                             viol("R-C07.7", f"conditional-field:{fname}:{F}:{','.join(others)}", f"{fname} prints `{X}.{F}` only when a test on `{X}.{others[0]}` passes: a node where {F} is set and the test fails is generated without it", f"CGenerator.{fname}", par)
+                    elif tests_self and not others and isinstance(par, (ast.If, ast.IfExp)) and not _presence_test(par.test, X, F) and _is_emission(n):
+                        # the field is printed only for some VALUES of the field (a class test, a comparison): what is there is not printed
+                        if isinstance(par, ast.If):
+                            here = par.body if any(cur is s_ for s_ in par.body) else par.orelse
+                            there = par.orelse if here is par.body else par.body
+                            if here is par.body and par.body and isinstance(par.body[-1], (ast.Return, ast.Raise)):
+                                # the arm does not fall through: what follows the `if` is the other outcome
+                                gp = getattr(par, "_parent", None)
+                                for field in ("body", "orelse"):
+                                    blk = getattr(gp, field, None)
+                                    if isinstance(blk, list) and any(x is par for x in blk):
+                                        there = list(there) + blk[[i for i, x in enumerate(blk) if x is par][0] + 1:]
+                        else:
+                            there = [par.orelse] if cur is par.body else [par.body]
+                        also = any(isinstance(a, ast.Attribute) and isinstance(a.value, ast.Name) and a.value.id == X and a.attr == F and isinstance(a.ctx, ast.Load) for s_ in there for a in ast.walk(s_))
+                        n77 += 1
+                        ctx.oblige("R-C07.7", f"{fname}: {X}.{F} under a test of its own value", also, sample={"rule": "R-C07.7", "visitor": fname, "field": F, "test": S.unparse(par.test)[:60], "emitted on the other outcome too": also})
+                        if not also:
+                            viol("R-C07.7", f"value-conditional-field:{fname}:{F}", f"{fname} prints `{X}.{F}` only when `{S.unparse(par.test)[:70]}` holds and nothing in its place otherwise: a child that is present but fails the test "
+                                 "(e.g. a null statement after a label) disappears from the generated text", f"CGenerator.{fname}", par)
                 cur = par
         # (b) text accumulated before a loop and used after it is not overwritten inside the loop
         for lp in [x for x in ast.walk(fn) if isinstance(x, (ast.For, ast.While))]:
@@ -374,11 +394,47 @@ def check(ctx):
                         ctx.oblige("R-C07.7", f"{fname}: accumulator {v} overwritten in a loop", False)
                         viol("R-C07.7", f"accumulator-clobbered:{fname}:{v}", f"{fname}: `{S.unparse(st)[:60]}` overwrites `{v}` inside a loop although the text is accumulated before the loop and used after it: everything generated so far is dropped", f"CGenerator.{fname}", st)
     ctx.oblige("R-C07.7", "accumulators are not overwritten inside loops", True, nontrivial=False)
+    # (c) no text that was produced is overwritten before it is used (forward may-analysis of pending stores, sa/lostwrites.py)
+    from ..lostwrites import LostWrites
+    for fname, fn in sorted(gm.methods("CGenerator").items()):
+        lost = [(by, pend, var) for by, pend, var in LostWrites(fn).run() if by is not None]
+        ctx.oblige("R-C07.7", f"{fname}: no produced text is overwritten unread", not lost, nontrivial=False)
+        for by, pend, var in lost:
+            viol("R-C07.7", f"lost-text:{fname}:{var}", f"{fname}: `{S.unparse(by)[:70]}` overwrites `{var}` while the text stored by `{S.unparse(pend)[:70]}` (line {pend.lineno}) has not been used on some path: "
+                 "whatever was generated for the node so far (specifiers, qualifiers, a prefix) is dropped from the output", f"CGenerator.{fname}", by)
     ctx.info["explanation"] = ("emission model of the generator: for every operand slot (24 slots x parent operators) and every abstract child (expression class x operator) looser than the slot's parse level, the emission idiom's "
                                "parenthesisation predicate is evaluated on the finite abstraction it can observe, in both generator configurations; precedence maps compared on all pairs; terminator list, visitor coverage, "
                                "field reads, token fusion and the declarator-inversion shape checked structurally")
     ctx.assumptions += ["NOT decided: equality of the two run-time ASTs and character-for-character idempotence of the generated text", "operand levels are those of DESIGN.md Appendix B (derived from the parser's reviewed wiring)"]
     ctx.trusted += ["E3 emission model", "Appendix B level table in sa/props/c07.py and sa/genmodel.py"]
+
+
+def _presence_test(test, X, F):
+    """the test only asks whether X.F is there (truthiness, None, emptiness) - possibly combined with other conjuncts"""
+    def atom(t):
+        if isinstance(t, ast.UnaryOp) and isinstance(t.op, ast.Not):
+            return atom(t.operand)
+        if isinstance(t, ast.Attribute):
+            return True
+        if isinstance(t, ast.Compare) and len(t.ops) == 1 and isinstance(t.ops[0], (ast.Is, ast.IsNot, ast.Eq, ast.NotEq)) and isinstance(t.comparators[0], ast.Constant) and t.comparators[0].value in (None, 0, ""):
+            return True
+        if isinstance(t, ast.Compare) and isinstance(t.left, ast.Call) and isinstance(t.left.func, ast.Name) and t.left.func.id == "len":
+            return True
+        if isinstance(t, ast.Call) and isinstance(t.func, ast.Name) and t.func.id in ("len", "bool"):
+            return True
+        return False
+    parts = test.values if isinstance(test, ast.BoolOp) else [test]
+    for p_ in parts:
+        mentions = any(isinstance(a, ast.Attribute) and isinstance(a.value, ast.Name) and a.value.id == X and a.attr == F for a in ast.walk(p_))
+        if mentions and not atom(p_):
+            return False
+    return True
+
+
+def _is_emission(attr):
+    """X.F is handed to a visiting / generating method (not merely inspected)"""
+    par = getattr(attr, "_parent", None)
+    return isinstance(par, ast.Call) and isinstance(par.func, ast.Attribute) and (par.func.attr.startswith(("visit", "_visit", "_generate", "_parenthesize")))
 
 
 def _applies(ops, pop):
